@@ -61,11 +61,16 @@ async def do_op(sim, request):
     if "text" in op:
         text_to_be_evaluated_by_format_constraint.set(op["text"])
     if kind == "rc_direct":
-        return await rc_evaluator.evaluate_conditions(op["keys"], evaluatable_data_provider())
+        contexts = None
+        if op.get("contexts") is not None:
+            from ahbicht.content_evaluation.evaluationdatatypes import EvaluationContext
+
+            contexts = {k: EvaluationContext(scope=v) for k, v in op["contexts"].items()}
+        return await rc_evaluator.evaluate_conditions(op["keys"], evaluatable_data_provider(), contexts)
     if kind == "fc_direct":
         return await fc_evaluator.evaluate_format_constraints(op["keys"])
     if kind == "hints_direct":
-        return await hints_provider.get_hints(op["keys"])
+        return await hints_provider.get_hints(op["keys"], raise_key_error=op.get("raise_key_error", True))
     if kind == "gather_mixed":
         rid = REQ.get()
 
@@ -80,6 +85,14 @@ async def do_op(sim, request):
     if kind == "fc_eval":
         return await format_constraint_evaluation(op["expr"])
     if kind == "ahb_eval":
+        if op.get("resolve") is None:  # the tree as the AHB parser returns it: condition parts are still strings
+            from ahbicht.expressions.ahb_expression_parser import (
+                parse_ahb_expression_to_single_requirement_indicator_expressions,
+            )
+
+            return await evaluate_ahb_expression_tree(
+                parse_ahb_expression_to_single_requirement_indicator_expressions(op["expr"])
+            )
         tree = await parse_expression_including_unresolved_subexpressions(
             op["expr"], resolve_packages=op.get("resolve", True)
         )
@@ -102,7 +115,7 @@ async def do_op(sim, request):
 
 
 # --------------------------------------------------------------------------------------------------- generation
-def _gen_op(rnd, rc, hints, fcs, packages):
+def _gen_op(rnd, rc, hints, fcs, packages, flavour="sim"):
     roll = rnd.random()
 
     def keylist(pool):
@@ -110,11 +123,18 @@ def _gen_op(rnd, rc, hints, fcs, packages):
         return [rnd.choice(pool) for _ in range(n)]
 
     if roll < 0.08:
-        return {"op": "rc_direct", "keys": keylist(rc)}
+        op = {"op": "rc_direct", "keys": keylist(rc)}
+        if flavour == "sim" and rnd.random() < 0.4:
+            op["contexts"] = {k: rnd.choice(STATES) for k in set(op["keys"]) if rnd.random() < 0.5}
+        return op
     if roll < 0.15:
         return {"op": "fc_direct", "keys": keylist(fcs), "text": rnd.choice([None, "", "abc", "4711"])}
     if roll < 0.22:
-        return {"op": "hints_direct", "keys": keylist(hints)}
+        op = {"op": "hints_direct", "keys": keylist(hints)}
+        if rnd.random() < 0.3:
+            op["keys"].insert(rnd.randrange(len(op["keys"]) + 1), "899" if "899" not in hints else "898")
+            op["raise_key_error"] = rnd.random() < 0.4
+        return op
     if roll < 0.30:
         n = rnd.randint(1, 7)
         return {"op": "gather_mixed", "items": [[rnd.choice("av"), i] for i in range(n)]}
@@ -136,7 +156,7 @@ def _gen_op(rnd, rc, hints, fcs, packages):
             "op": "ahb_eval",
             "parts": parts,
             "expr": render_ahb(parts, rnd, rnd.choice(["plain", "symbol"])),
-            "resolve": True,
+            "resolve": None if (not packages and rnd.random() < 0.25) else True,
             "text": rnd.choice([None, "text", "12345"]),
         }
     if roll < 0.90:
@@ -189,7 +209,7 @@ def generate(seed, tier="quick"):
             {
                 "rid": rid,
                 "start": rnd.choice([0, 0, 0, 1, 2, 7]),
-                "op": _gen_op(rnd, rc, hints, fcs, package_kinds),
+                "op": _gen_op(rnd, rc, hints, fcs, package_kinds, flavour),
                 "cer": cer,
             }
         )
@@ -224,12 +244,16 @@ def _direct_clause(request, outcome):
     op, cer, rid = request["op"], request["cer"], request["rid"]
     result = outcome["ok"]
     if op["op"] == "rc_direct":
-        expected = [[k, f"ConditionFulfilledValue.{cer['requirement_constraints'][k]}"] for k in dict.fromkeys(op["keys"])]
+        contexts = op.get("contexts") or {}
+        expected = [
+            [k, f"ConditionFulfilledValue.{contexts.get(k, cer['requirement_constraints'][k])}"]
+            for k in dict.fromkeys(op["keys"])
+        ]
         if result != {"!dict": expected}:
             return f"evaluate_conditions({op['keys']}) returned {result}, expected {expected}"
     if op["op"] == "hints_direct":
         pairs = result.get("!dict") if isinstance(result, dict) else None
-        expected_keys = list(dict.fromkeys(op["keys"]))
+        expected_keys = [k for k in dict.fromkeys(op["keys"]) if k in cer["hints"]]
         if pairs is None or [p[0] for p in pairs] != expected_keys:
             return f"get_hints({op['keys']}) returned keys {pairs}"
         for key, value in pairs:
